@@ -313,6 +313,12 @@ CURATED_V2 = (
     # binding has to accept the scope sets of such heads (see c12_dyn._scopes_stripped).
     "flow g\n  match G()\n  abort\n\nflow k\n  match K()\n  abort\n\nflow main\n  while True\n"
     "    when g or k\n      send Then()\n    else\n      send Else()\n    match Z()\n",
+    # the else body of a `when` with two cases is emitted once per case: a break/continue in it must
+    # not be shared between the copies (first seen at control-grammar size 7)
+    "flow g\n  match G()\n  abort\n\nflow main\n  when E0()\n    match E1()\n  or when g\n    return\n"
+    "  else\n    while $c\n      break\n",
+    "flow g\n  match G()\n  abort\n\nflow main\n  while $c\n    when E0()\n      match E1()\n    or when g\n"
+    "      match E2()\n    else:\n      if $c\n        continue\n      break\n    match Z()\n",
 )
 
 
